@@ -1,6 +1,7 @@
 import LzmaVerif.Proofs.MT
 import LzmaVerif.Model.MTTrace
 import LzmaVerif.Model.MTTraceW
+import LzmaVerif.Proofs.MTTrace
 /-!
 # C08 / C09 / C10 — validated executions of the real MT readers are paths of the protocol LTS
 
@@ -15,6 +16,9 @@ on every `./check C08|C09|C10`).  The theorems here say what an accepted log giv
   assumed - a wrong rule can only make the validator reject (or take a different, still genuine, path).
 * `accepted_trace_released_all_threads` – an accepted log ends with the reader dropped and every
   worker of the model exited, and every worker thread of the real run has logged its return.
+* `accepted_trace_returns` – the sequence numbers that the real calls returned (`rt:d:<seq>` events, in log
+  order) ARE the model's `delivered` list (invariant over the replay, `Proofs/MTTrace.lean`; the validator
+  insists on exactly one return per call), so by C08 they are `0, 1, 2, …` without gap or duplicate.
 * `accepted_trace_in_order`, `accepted_trace_end_is_complete`, `accepted_trace_is_short` – the
   theorems about ALL schedules (C08, C09) instantiated at the schedule of a validated real execution.
 
@@ -45,6 +49,13 @@ theorem accepted_trace_released_all_threads (cfg : Cfg) (evs : List Ev) (v : VS 
       exact hf
     · cases h
   · cases h
+
+theorem accepted_trace_returns (cfg : Cfg) (hcfg : 1 ≤ cfg.maxWorkers) (evs : List Ev) (v : VS cfg)
+    (h : replay cfg evs = .ok v) :
+    dataRets evs = v.path.sys.delivered ∧ dataRets evs = List.range (dataRets evs).length := by
+  have hr := replay_returns cfg evs v h
+  have ho := (mt_order cfg hcfg (schedOf v) v.path.sys (accepted_trace_is_path cfg evs v h)).1
+  exact ⟨hr, by rw [hr]; exact ho⟩
 
 theorem accepted_trace_in_order (cfg : Cfg) (hcfg : 1 ≤ cfg.maxWorkers) (evs : List Ev) (v : VS cfg)
     (h : replay cfg evs = .ok v) :
@@ -115,6 +126,8 @@ def exLog : List Ev :=
    .c (.st .finished), .ret .done, .drop, .w 0 .woke, .w 0 .closed, .w 0 .exit]
 
 example : accepts exCfg exLog = true := by decide +kernel
+
+example : dataRets exLog = [0] := by decide
 
 /-- the same log with the pop of a unit that was never pushed -/
 example : accepts exCfg (exLog.map fun e => if e = .w 0 (.pop 0) then .w 0 (.pop 1) else e) = false := by
